@@ -217,6 +217,7 @@ type Anchors struct {
 
 	Missing []string // unresolved anchors
 	mentions map[*core.Func]map[string]bool
+	wrappers map[*core.Func]*core.Func
 }
 
 var anchorCache = map[*core.Model]*Anchors{}
